@@ -173,6 +173,15 @@ type Tape struct {
 	Values  []TapeEntry `json:"values"`
 	Choices []int       `json:"choices"`
 	Assert  string      `json:"assert,omitempty"`
+	// virtual-time deltas (ns) of the vAdvance calls on the path and whether a
+	// timer fired, so that a native replay can wait for exactly that long
+	Advances []int64 `json:"advances,omitempty"`
+	AdvFired []bool  `json:"adv_fired,omitempty"`
+}
+
+type advRec struct {
+	before, after *Term
+	fired         bool
 }
 
 type Observation struct {
@@ -242,6 +251,8 @@ type Path struct {
 	races        []string
 	shared       map[*Obj]bool
 	mapOrderFixed bool
+	advances     []advRec
+	delayVars    []*Term
 }
 
 type sideKey struct {
@@ -546,7 +557,7 @@ func (p *Path) Assert(cond *Term, label, site string) {
 			res, m := p.checkAssert(outside)
 			switch res {
 			case Sat:
-				record(m, "")
+				record(p.replayable(m, outside), "")
 			case Unknown:
 				p.inconcl = append(p.inconcl, "solver unknown at assertion "+label)
 			}
@@ -572,7 +583,30 @@ func (p *Path) tapeFor(m Model, assert string) *Tape {
 		t.Values = append(t.Values, e)
 	}
 	t.Choices = append(t.Choices, p.choices...)
+	ev := p.C.NewEvaluator(m)
+	for _, a := range p.advances {
+		t.Advances = append(t.Advances, int64(ev(a.after)-ev(a.before)))
+		t.AdvFired = append(t.AdvFired, a.fired)
+	}
 	return t
+}
+
+// replayable tries to find, for the same assertions, a model in which every
+// symbolic delay lies in [20 ms, 200 ms], so that a native replay takes little
+// real time; it falls back to the given model.
+func (p *Path) replayable(m Model, extra ...*Term) Model {
+	if len(p.delayVars) == 0 {
+		return m
+	}
+	c := p.C
+	cons := append([]*Term{}, extra...)
+	for _, d := range p.delayVars {
+		cons = append(cons, c.And(c.Sle(c.Const(64, 100e6), d), c.Sle(d, c.Const(64, 400e6))))
+	}
+	if res, m2 := p.check(cons...); res == Sat {
+		return m2
+	}
+	return m
 }
 
 // Nondet creates a fresh symbolic variable.
@@ -813,7 +847,7 @@ func (p *Path) finalTape() (tp *Tape) {
 			tp = nil
 		}
 	}()
-	m := p.getModel()
+	m := p.replayable(p.getModel())
 	return p.tapeFor(m, "")
 }
 
